@@ -50,8 +50,16 @@ def rename_spec(spec, mapping, order=None):
     return s
 
 
-def stats_by_name(coal, pops, sfs=True):
+def stats_by_name(coal, pops, sfs=True, shared=None):
     out = {}
+    if shared is not None:
+        # reward objects built ONCE by the user and reused with several coalescents (different listing orders)
+        for p in pops:
+            if p not in shared:
+                shared[p] = pg.TotalBranchLengthReward().prod(pg.DemeReward(p))
+            out[f'moment1.shared_reward[{p}]'] = float(coal.moment(1, (shared[p],)))
+        p0, p1 = pops[0], pops[-1]
+        out[f'moment2.shared_reward[{p0},{p1}]'] = float(coal.moment(2, (shared[p0], shared[p1])))
     out['th.mean'] = coal.tree_height.mean
     out['th.var'] = coal.tree_height.var
     out['tbl.mean'] = coal.total_branch_length.mean
@@ -76,7 +84,8 @@ def oracle_naming(case):
     spec = case['spec']
     pops = [p for p, _ in spec['n_items']]
     one_locus = spec.get('loci', 1) == 1
-    base = stats_by_name(build.coalescent(spec), pops, sfs=one_locus)
+    shared = {} if one_locus else None
+    base = stats_by_name(build.coalescent(spec), pops, sfs=one_locus, shared=shared)
     variants = []
     for order in case['orders']:
         variants.append(('reordered', rename_spec(spec, {}, order), {p: p for p in pops}))
@@ -88,7 +97,7 @@ def oracle_naming(case):
         if len(s['n_items']) < len(spec['n_items']):
             variants.append(('unsampled population omitted', s, {p: p for p in pops}))
     for kind, s2, mapping in variants:
-        got = stats_by_name(build.coalescent(s2), [mapping[p] for p in pops], sfs=one_locus)
+        got = stats_by_name(build.coalescent(s2), [mapping[p] for p in pops], sfs=one_locus, shared=shared)
         for k, v in base.items():
             k2 = k
             for p in pops:
@@ -276,11 +285,23 @@ def oracle_identities(case):
     n += 1
     if not relv(f, fold, 1e-9):
         fails.append({'what': 'folded spectrum is not the fold of the unfolded one', 'fsfs': f.tolist(), 'fold': fold.tolist()})
-    cov = c.sfs.cov.data
-    n += 1
-    if not rel(float(np.sum(cov)), c.total_branch_length.var, 1e-7, 1e-10):
-        fails.append({'what': 'SFS covariances do not sum to the variance of the total branch length',
-                      'sum_cov': float(np.sum(cov)), 'var_L': c.total_branch_length.var})
+    order = case.get('second_order_reads', 'cov')
+    with warnings.catch_warnings():
+        warnings.simplefilter('ignore')
+        if order == 'corr_first':        # the identities must not depend on which cached property was read first
+            c.sfs.corr, c.fsfs.corr
+        elif order == 'touch':
+            c.sfs.touch()
+    for nm, d in (('sfs', c.sfs), ('fsfs', c.fsfs)):
+        cov = d.cov.data
+        n += 1
+        if not rel(float(np.sum(cov)), c.total_branch_length.var, 1e-7, 1e-10):
+            fails.append({'what': f'{nm}: SFS covariances do not sum to the variance of the total branch length',
+                          'reads': order, 'sum_cov': float(np.sum(cov)), 'var_L': c.total_branch_length.var})
+        n += 1
+        if not relv(np.diag(cov), d.var.data, 1e-8, 1e-11):
+            fails.append({'what': f'{nm}: diagonal of the SFS covariance matrix is not the SFS variance', 'reads': order,
+                          'diag': np.diag(cov).tolist(), 'var': d.var.data.tolist()})
     # lineage-counting vs block-counting representation
     for k in (1, 2):
         for rw, lcv in ((pg.rewards.TreeHeightReward(), c.tree_height.moment(k, center=False)),
@@ -381,6 +402,38 @@ def oracle_projection(case):
     if b.total_branch_length.mean > a.total_branch_length.mean * (1 + 1e-9) + 1e-12:
         fails.append({'what': 'expected total branch length decreases when a sample is added', 'n': nn,
                       'L(n-1)': b.total_branch_length.mean, 'L(n)': a.total_branch_length.mean})
+    # the same statements for values obtained jointly for several end times (one accumulate call) and for a
+    # window (start_time > 0): expectations are linear, so the projection holds for each of them
+    T = float(spec['end_time'])
+    times = [T / 4, T / 2, T]
+    def proj_of(v):
+        out = np.zeros(nn)
+        for j in range(1, nn):
+            out[j] = (nn - j) / nn * v[j] + (j + 1) / nn * (v[j + 1] if j + 1 <= nn - 1 else 0.0)
+        return out[1:nn - 1]
+    A, B = np.array(a.sfs.accumulate(1, times)), np.array(b.sfs.accumulate(1, times))
+    HA, HB = np.array(a.tree_height.accumulate(1, times)), np.array(b.tree_height.accumulate(1, times))
+    LA, LB = np.array(a.total_branch_length.accumulate(1, times)), np.array(b.total_branch_length.accumulate(1, times))
+    for i, t in enumerate(times):
+        n += 2
+        if not relv(proj_of(A[:, i]), B[1:nn - 1, i], 1e-9):
+            fails.append({'what': 'accumulate(1, several end times): expected SFS of n-1 samples is not the down-projection of n samples',
+                          'n': nn, 'end_times': times, 'position': i, 'projected': proj_of(A[:, i]).tolist(), 'observed': B[1:nn - 1, i].tolist()})
+            break
+        if HB[i] > HA[i] * (1 + 1e-9) + 1e-12 or LB[i] > LA[i] * (1 + 1e-9) + 1e-12:
+            fails.append({'what': 'accumulate(1, several end times): expected height or branch length decreases when a sample is added',
+                          'n': nn, 'end_times': times, 'position': i, 'H(n-1)': float(HB[i]), 'H(n)': float(HA[i]), 'L(n-1)': float(LB[i]), 'L(n)': float(LA[i])})
+            break
+    def mkw(k):
+        s = copy.deepcopy(spec)
+        s['n_items'] = [[spec['n_items'][0][0], k]]
+        s['start_time'] = T / 4
+        return build.coalescent(s)
+    wa, wb = mkw(nn), mkw(nn - 1)
+    n += 1
+    if not relv(proj_of(wa.sfs.mean.data), wb.sfs.mean.data[1:nn - 1], 1e-9):
+        fails.append({'what': 'window (start_time > 0): expected SFS of n-1 samples is not the down-projection of n samples',
+                      'n': nn, 'start_time': T / 4, 'projected': proj_of(wa.sfs.mean.data).tolist(), 'observed': wb.sfs.mean.data[1:nn - 1].tolist()})
     return fails, n, {'sfs_n': sa.tolist()}
 
 
@@ -440,6 +493,25 @@ def oracle_routes(case):
     # memoisation keyed by reward equality: equal rewards built twice give the same number
     rs2 = [mk_reward(r) for r in case['rewards']]
     checks.append(('rewards that compare equal give the same value', c.moment(k, tuple(rs2), center=True), cen, 0))
+    # ordered cross moments (permute=False): raw, centred, raw again on ONE object - the centred request must not
+    # change what the raw request returns afterwards, and for k = 2 centred = raw - product of the means
+    f = build.coalescent(spec)
+    # one persistent distribution object on the state space the rewards need (what Coalescent.moment builds per call)
+    fd = f.tree_height if R.Reward.support(pg.state_space.LineageCountingStateSpace, rs) else f._get_dist(k, rs)
+    ordered = lambda center: float(np.asarray(fd.accumulate(k, [T], rewards=tuple(rs), center=center, permute=False)).ravel()[0])
+    raw_before = ordered(False)
+    cen_ord = ordered(True)
+    raw_after = ordered(False)
+    checks.append(('ordered raw moment unchanged by an intervening centred request (permute=False)', raw_after, raw_before, 0))
+    mT = [float(np.asarray(fd.accumulate(1, [T], rewards=(r,), center=False)).ravel()[0]) for r in rs]
+    if k == 2:
+        checks.append(('ordered centred cross moment = ordered raw - product of means', cen_ord, raw_before - mT[0] * mT[1],
+                       ('abs', 1e-9 * max(abs(raw_before), abs(mT[0] * mT[1]), 1e-12))))
+    sym = float(np.asarray(fd.accumulate(k, [T], rewards=tuple(rs), center=False, permute=True)).ravel()[0])
+    if k == 2:
+        rev = float(np.asarray(fd.accumulate(2, [T], rewards=(rs[1], rs[0]), center=False, permute=False)).ravel()[0])
+        checks.append(('symmetrised cross moment = average of the two ordered ones', sym, (raw_after + rev) / 2,
+                       ('abs', 1e-10 * max(abs(sym), 1e-12))))
     for name, x, y, tol in checks:
         n += 1
         if isinstance(tol, tuple):
